@@ -38,6 +38,11 @@ func knownLen(v ssa.Value) (int64, bool) {
 				}
 				return n - lo, true
 			}
+		} else if hc, isCall := core.StripConv(x.High).(*ssa.Call); isCall {
+			// x[:len(x)] has the length of x
+			if b, isB := hc.Call.Value.(*ssa.Builtin); isB && b.Name() == "len" && x.Low == nil && (hc.Call.Args[0] == x.X || sameValue(hc.Call.Args[0], x.X)) {
+				return knownLen(x.X)
+			}
 		} else if h, isK := core.ConstInt(x.High); isK {
 			lo := int64(0)
 			if x.Low != nil {
@@ -52,6 +57,11 @@ func knownLen(v ssa.Value) (int64, bool) {
 	case *ssa.MakeSlice:
 		if n, ok := core.ConstInt(x.Len); ok {
 			return n, true
+		}
+	case *ssa.Call:
+		// a copy: append([]T(nil), x...) has the length of x
+		if b, isB := x.Call.Value.(*ssa.Builtin); isB && b.Name() == "append" && len(x.Call.Args) == 2 && emptySlice(x.Call.Args[0]) {
+			return knownLen(x.Call.Args[1])
 		}
 	case *ssa.Const:
 		if s, ok := core.ConstString(x); ok {
